@@ -129,6 +129,7 @@ func escRuns(r *Run, letters []string, mods []string) {
 			c.Ops = []SOp{{Kind: "static", Name: "v", Val: in}, {Kind: "render", Key: "main"}}
 			cases = append(cases, c)
 			r.Dist["long-run"]++
+			guardCase("long-run "+d+" in="+in, c.Describe())
 			// n single passes fed into one another
 			k1, err, pan := regTpl("{%"+l+"= v %}", true)
 			kn, err2, pan2 := regTpl("{%"+d+"= v %}", true)
